@@ -145,6 +145,50 @@ def family(rep: Any, prop: str, recs: List[Dict[str, Any]], eligible: List[int],
     return found, info
 
 
+def family_once(rep: Any, prop: str, recs: List[Dict[str, Any]], eligible: List[int], rng: random.Random, n: int) -> bool:
+    """Every feature is handed to its calculation ONCE also when the calculation fails with a transient environment error
+    (ConnectionError / TimeoutError / OSError raised only the first time it is executed): the run raises, the calculation is not
+    executed a second time behind the caller's back.  SYNC and THREADING."""
+    import builtins
+    from mloda.user import ParallelizationMode
+    from harness.orch import run_observed
+    found = False
+    info = {"runs": 0, "raised": 0}
+    k = 0
+    for i in eligible:
+        if info["runs"] >= n:
+            break
+        plan = recs[i]["plan"]
+        fgs = [s for s in plan["steps"] if s["kind"] == "FG"]
+        if not fgs:
+            continue
+        st = rng.choice(fgs)
+        exc = ["ConnectionError", "TimeoutError", "OSError", "BrokenPipeError"][k % 4]
+        k += 1
+        for mode in (ParallelizationMode.SYNC, ParallelizationMode.THREADING):
+            gl = GateListener()
+            uni = Universe(recs[i]["spec"], gl)
+            uni.fail_exc = getattr(builtins, exc)
+            key_ = (st["group"], sorted(st["names"])[0])
+            uni.fail_once.add(key_)
+            o = run_observed(uni.prepare(), modes={mode}, timeout=30)
+            info["runs"] += 1
+            rep.count(1)
+            hits = uni.fail_once_hits.get(key_, 0)
+            rkey = f"once:{mode.name}:{exc}:{json.dumps(recs[i]['spec'], sort_keys=True)}:{st['sid']}"
+            replay = {"kind": "once", "spec": recs[i]["spec"], "fail": [st["group"], list(st["names"])], "exc": exc, "mode": mode.name}
+            if hits > 1:
+                rep.finding(rkey, f"{mode.name}: the calculation of {st['group']}.{key_[1]} raised {exc} the first time it was executed and was "
+                                  f"executed {hits} times in one run (run {o['status']}): a feature is handed to its calculation once", replay)
+                found = True
+            elif hits == 1 and o["status"] != "raised":
+                rep.finding(rkey, f"{mode.name}: the calculation of {st['group']}.{key_[1]} raised {exc} but the run ended with {o['status']}", replay)
+                found = True
+            info["raised"] += int(o["status"] == "raised")
+    rep.add("transient_environment_fault_family", info)
+    return found
+
+
 def replay(r: Dict[str, Any]) -> int:
     rec = one(r["spec"], r["fail"][0], r["fail"][1], random.Random(0))
     f = failure_of(rec)
